@@ -7,5 +7,6 @@ CONSTANTS
   CHUNK = 48000
   MaxBlockSize = 7788
   TimeoutPerChunk = TRUE
+  SerErrorsFatal = TRUE
   Streams <- StreamsFull
 INVARIANTS TypeOK Faithful PrefixOK NoDesync RefusalCheap BufferBounded NoOverread BackToNone DoneClean NoInvented BodyTimeoutInBody
